@@ -789,6 +789,15 @@ func (h *vHarness) vRunHistory(w *bufio.Writer, rng *rand.Rand, wd *vWorld, nEve
 			}
 			c.state = api.ContainerState_CONTAINER_RUNNING
 			h.simple(w, "start "+c.id, func() ([]*api.ContainerUpdate, error) { return nil, h.m.nri.StartContainer(ctx, c.pod.nri(), c.nri()) })
+			if preserve && rng.Intn(2) == 0 {
+				// a real resource change of the opted-out container before the pressure builds up: it is re-allocated through the
+				// update path (with a pool hint), and must come out of it as opted-out as it went in
+				c.milli = []int64{300, 700}[rng.Intn(2)]
+				nc := c.nri()
+				h.simple(w, "update "+c.spec()+" "+vRes(nc.Linux.Resources), func() ([]*api.ContainerUpdate, error) {
+					return h.m.nri.UpdateContainer(ctx, c.pod.nri(), nc, nc.Linux.Resources)
+				})
+			}
 		}
 		for i := 0; i < 1+rng.Intn(2); i++ {
 			mk("Burstable", big*int64(5+rng.Intn(20))/100, true)
@@ -965,6 +974,22 @@ func (h *vHarness) vRunHistory(w *bufio.Writer, rng *rand.Rand, wd *vWorld, nEve
 				if !has && rng.Intn(2) == 0 {
 					delete(wd.pods, k)
 					h.simple(w, "down-removepod "+k, noop)
+				}
+			}
+			if rng.Intn(3) == 0 { // a container RESTARTED while the plugin was down: the old instance is gone, a new one with the same
+				// name in the same (surviving) pod has a new id (an ordinary kubelet container restart)
+				lv := live()
+				if len(lv) > 0 {
+					c := lv[rng.Intn(len(lv))]
+					h.simple(w, "down-remove "+c.id, noop)
+					delete(wd.ctrs, c.id)
+					c2 := *c
+					c2.id = fmt.Sprintf("c%d", wd.nCtr)
+					wd.nCtr++
+					c2.state = []api.ContainerState{api.ContainerState_CONTAINER_CREATED, api.ContainerState_CONTAINER_RUNNING}[rng.Intn(2)]
+					wd.ctrs[c2.id] = &c2
+					nc := c2.nri()
+					h.simple(w, "down-create "+c2.spec()+" "+vRes(nc.Linux.Resources)+" "+strconv.Itoa(int(c2.state)), noop)
 				}
 			}
 			if rng.Intn(3) == 0 { // a container created while the plugin was down
